@@ -166,6 +166,11 @@ func checkC02(c *Check) {
 				return ok && pathP(sl.X) && sl.High == nil && sl.Low != nil && nextP(sl.Low)
 			}
 			want = vOr(vBin(token.ADD, vBin(token.ADD, segP, vConstStr("/")), rest), vBin(token.ADD, segP, vBin(token.ADD, vConstStr("/"), rest)))
+			if p.windowFacts()[fn] {
+				// with the window fact (every caller passes segment == path[next-1-len(segment):next-1]) the same text
+				// is the rest of the path from where the segment starts
+				want = vOr(want, vSub(pathP, linForm(-1, []VM{nextP}, []VM{vLen(segP)}), nil))
+			}
 			desc = "params[bind] = segment + \"/\" + path[next:]"
 		}
 		okK := vField(recv, "bind")(mu.Key)
